@@ -240,6 +240,7 @@ def worker_main(args: dict) -> int:
         out["template"]["declared_fields_not_exercised"] = list(
             specs.UNEXERCISED_FIELDS
         )
+        out["python_optimize"] = sys.flags.optimize
         run_index = args.get("first_run", 0) + w
         last = args.get("max_runs")
         stop_flag = os.path.join(os.path.dirname(base), "STOP")
@@ -511,6 +512,10 @@ def run_pool(prop, tier, seed, budget_s=None, workers=None, max_runs=None,
             OMP_NUM_THREADS="1",
             OPENBLAS_NUM_THREADS="1",
         )
+        if w % 8 == 7:
+            # process-environment dimension: these workers (and the nodes
+            # forked from them) run with assert statements compiled away
+            env["PYTHONOPTIMIZE"] = "1"
         proc = subprocess.Popen(
             [PYTHON, os.path.join(VERIF_DIR, "check.py"), "_worker", json.dumps(args)],
             env=env,
@@ -601,6 +606,10 @@ def merge(results):
         total["sim_seconds"] += res["sim_seconds"]
         total["checked"] += res["checked"]
         total["template"] = total["template"] or res.get("template")
+        if res.get("python_optimize"):
+            total["workers_with_python_optimize"] = (
+                total.get("workers_with_python_optimize", 0) + 1
+            )
         fs = res.get("full_sample")
         if fs and (
             total.get("full_sample") is None
